@@ -12,6 +12,7 @@ package graphql
 
 import (
 	"context"
+	"sync"
 
 	gql "github.com/sourcenetwork/graphql-go"
 	"github.com/sourcenetwork/graphql-go/language/ast"
@@ -33,6 +34,10 @@ var _ core.Parser = (*parser)(nil)
 var tracer = telemetry.NewTracer()
 
 type parser struct {
+	// mu serialises every use of the schema. graphql-go builds parts of its type objects
+	// lazily on first use (field maps, possible types), so even read-only looking operations
+	// like validation write to the schema that all requests share.
+	mu            sync.Mutex
 	schemaManager *schema.SchemaManager
 }
 
@@ -67,6 +72,9 @@ func (p *parser) BuildRequestAST(ctx context.Context, request string) (*ast.Docu
 }
 
 func (p *parser) IsIntrospection(ast *ast.Document) bool {
+	p.mu.Lock()
+	defer p.mu.Unlock()
+
 	schema := p.schemaManager.Schema()
 	return defrap.IsIntrospectionQuery(*schema, ast)
 }
@@ -74,6 +82,9 @@ func (p *parser) IsIntrospection(ast *ast.Document) bool {
 func (p *parser) ExecuteIntrospection(ctx context.Context, request string) *client.RequestResult {
 	_, span := tracer.Start(ctx)
 	defer span.End()
+
+	p.mu.Lock()
+	defer p.mu.Unlock()
 
 	schema := p.schemaManager.Schema()
 	params := gql.Params{Schema: *schema, RequestString: request}
@@ -96,6 +107,9 @@ func (p *parser) Parse(ctx context.Context, ast *ast.Document, options *client.G
 	_, span := tracer.Start(ctx)
 	defer span.End()
 
+	p.mu.Lock()
+	defer p.mu.Unlock()
+
 	schema := p.schemaManager.Schema()
 	validationResult := gql.ValidateDocument(schema, ast, nil)
 	if !validationResult.IsValid {
@@ -112,6 +126,9 @@ func (p *parser) Parse(ctx context.Context, ast *ast.Document, options *client.G
 func (p *parser) ParseSDL(ctx context.Context, sdl string) ([]core.Collection, error) {
 	_, span := tracer.Start(ctx)
 	defer span.End()
+
+	p.mu.Lock()
+	defer p.mu.Unlock()
 
 	return p.schemaManager.ParseSDL(sdl)
 }
@@ -134,6 +151,8 @@ func (p *parser) SetSchema(ctx context.Context, collections []client.CollectionD
 
 	txn.OnSuccess(
 		func() {
+			p.mu.Lock()
+			defer p.mu.Unlock()
 			p.schemaManager = schemaManager
 		},
 	)
@@ -141,5 +160,8 @@ func (p *parser) SetSchema(ctx context.Context, collections []client.CollectionD
 }
 
 func (p *parser) NewFilterFromString(collectionType string, body string) (immutable.Option[request.Filter], error) {
+	p.mu.Lock()
+	defer p.mu.Unlock()
+
 	return defrap.NewFilterFromString(*p.schemaManager.Schema(), collectionType, body)
 }
